@@ -210,23 +210,27 @@ def state_cases(chk, MX, n):
             v = [rng.uniform(5, 300), rng.uniform(-40, 40), rng.uniform(-40, 40)]
             st["velocity"] = v
             vin = "(VVec %s)" % fv3(v)
-            ra = tb.atan2(v[2], v[0])
-            rb = tb.asin(v[1] / math.sqrt(v[0] ** 2 + v[1] ** 2 + v[2] ** 2))
+            ra = rb = None
             chk.count("state_velocity=vec")
         fr = rng.choice(["body", "stab", "wind"])
         w = [rng.uniform(-1, 1) for _ in range(3)]
         st["angular_rates"] = w
         st["angular_rate_frame"] = fr
-        if fr == "stab":
-            mirror_e2q(tb, 0.0, ra, 0.0)
-        elif fr == "wind":
-            mirror_e2q(tb, 0.0, ra, -rb)
         chk.count("state_frame=" + fr)
         try:
             A.set_state(**copy.deepcopy(st), v_wind=np.array(wind))
         except Exception as e:
             chk.violation("set_state:raises", dict(kind="set_state", state=st, wind=wind, error=repr(e)))
             continue
+        if ra is None:
+            # velocity vector: the rate axes belong to the velocity relative to the local wind (body components)
+            vr = np.array(st["velocity"], dtype=float) - MX.helpers.quat_trans(np.array(A.q, dtype=float), np.array(wind, dtype=float))
+            ra = tb.atan2(float(vr[2]), float(vr[0]))
+            rb = tb.asin(float(vr[1]) / math.sqrt(float(vr[0]) ** 2 + float(vr[1]) ** 2 + float(vr[2]) ** 2))
+        if fr == "stab":
+            mirror_e2q(tb, 0.0, ra, 0.0)
+        elif fr == "wind":
+            mirror_e2q(tb, 0.0, ra, -rb)
         cases.append("chk_set_state %s %s %s %s %s %s %s %s" % (
             tb.coq(), o, vin, {"body": "FBody", "stab": "FStab", "wind": "FWind"}[fr], fv3(w), fv3(wind),
             fq4(A.q), fv3(A.v) + " " + fv3(A.w)))
@@ -527,7 +531,7 @@ def twin_sweep(chk, MX, n):
             bad = compare_units(ra, rb)
         else:
             tolr = 5e-6 if name in ("annotations",) else 2e-6
-            bad = api.compare(ra, rb, rtol=tolr, atol=2e-7)
+            bad = api.compare(ra, rb, rtol=tolr, atol=2e-7, scale_atol=2e-8)
         chk.case(dict(twin=name, units=units, n_wings=len(ac["wings"]), digest=common.hashlib.sha1(json.dumps([A, B], sort_keys=True, default=str).encode()).hexdigest()[:10]), nontrivial=True)
         chk.count("twin=" + name)
         per[name] = per.get(name, 0) + 1
@@ -576,7 +580,7 @@ def replay(chk, path):
     MX = common.setup_env()
     if r.get("kind") == "twin" and "b" in r:
         ra, rb = totals(MX, *r["a"]), totals(MX, *r["b"])
-        bad = compare_units(ra, rb) if r["twin"] == "units" else api.compare(ra, rb, rtol=5e-6, atol=2e-7)
+        bad = compare_units(ra, rb) if r["twin"] == "units" else api.compare(ra, rb, rtol=5e-6, atol=2e-7, scale_atol=2e-8)
         print("differences:", bad[:8])
         if bad:
             print("VIOLATION property=C06 replay=%s" % path)
